@@ -1,10 +1,25 @@
 -- driver for C13: summary figures of the report writers (see GrcovModel/Drv/C13.lean)
 import GrcovModel.Drv.C13
+import GrcovModel.Drv.C13Md
+
+/-- part drivers first, then the property's own ops -/
+def dispatch (line : String) : String :=
+  match (line.trimAscii.toString.splitOn " ").filter (· ≠ "") with
+  | "c13.md.markdown" :: args => Grcov.Drv.C13Md.handleMarkdown args
+  | "c13.md.parse" :: args => Grcov.Drv.C13Md.handleParse args
+  | "c13.md.badge" :: args => Grcov.Drv.C13Md.handleBadge args
+  | "c13.md.badgeparse" :: args => Grcov.Drv.C13Md.handleBadgeParse args
+  | "c13.md.json" :: args => Grcov.Drv.C13Md.handleJson args
+  | "c13.md.jsonparse" :: args => Grcov.Drv.C13Md.handleJsonParse args
+  | "c13.md.html" :: args => Grcov.Drv.C13Md.handleHtml args
+  | "c13.md.fig" :: args => Grcov.Drv.C13Md.handleFig args
+  | "c13.md.files" :: args => Grcov.Drv.C13Md.handleFiles args
+  | _ => Grcov.Drv.C13.step line
 
 partial def loop (h : IO.FS.Stream) (out : IO.FS.Stream) : IO Unit := do
   let line ← h.getLine
   if line.isEmpty then return ()
-  out.putStrLn (Grcov.Drv.C13.step line)
+  out.putStrLn (dispatch line)
   loop h out
 
 def main : IO Unit := do
